@@ -17,6 +17,7 @@ from ._http import connect, proxy_info
 from ._logging import debug, error, trace, isEnabledForError, isEnabledForTrace
 from ._socket import getdefaulttimeout, recv, send, sock_opt
 from ._ssl_compat import ssl
+from ._url import parse_url
 from ._utils import NoLock
 from ._dispatcher import DispatcherBase, WrappedDispatcher
 
@@ -281,18 +282,19 @@ class WebSocket:
                         raise WebSocketException(
                             "Redirect response without Location header"
                         )
-                    self.sock.close()
                     try:
-                        self.sock, addrs = connect(
-                            url,
-                            self.sock_opt,
-                            proxy_info(**options),
-                            options.pop("socket", None),
-                        )
+                        parse_url(url)
                     except ValueError as e:
                         raise WebSocketException(
                             f"Invalid redirect location {url!r}: {e}"
                         )
+                    self.sock.close()
+                    self.sock, addrs = connect(
+                        url,
+                        self.sock_opt,
+                        proxy_info(**options),
+                        options.pop("socket", None),
+                    )
                     self.handshake_response = handshake(
                         self.sock, url, *addrs, **options
                     )
